@@ -138,19 +138,22 @@ func sortStrings(s []string) {
 }
 
 // fuzzOracle: whatever the bytes, acceptance needs a true statement.
-func fuzzOracle(fs *fuzzStore, proof []byte, store string, key, value []byte) (string, bool, bool) {
+func fuzzOracle(fs *fuzzStore, proof, rootHash []byte, store string, key, value []byte) (string, bool, bool) {
 	var mp commitmenttypes.MerkleProof
 	if err := mp.Unmarshal(proof); err != nil {
 		return "", false, false
 	}
 	specs := commitmenttypes.GetSDKSpecs()
-	root := commitmenttypes.NewMerkleRoot(fs.root)
+	root := commitmenttypes.NewMerkleRoot(rootHash)
 	path := commitmenttypesv2.NewMerklePath([]byte(store), key)
 	var mem, non bool
 	vx.Recover(func() { mem = mp.VerifyMembership(specs, root, path, value) == nil })
 	vx.Recover(func() { non = mp.VerifyNonMembership(specs, root, path) == nil })
 	stored, present := fs.model[store][string(key)]
 	_, knownStore := fs.model[store]
+	if (mem || non) && !bytes.Equal(rootHash, fs.root) {
+		return fmt.Sprintf("VIOLATION property=C18 sig=\"fuzz-foreign-root-accepted\": proof verifies (member=%v nonmember=%v) against root %x, the store's root is %x; key %q store %q proof %x", mem, non, rootHash, fs.root, key, store, proof), mem, non
+	}
 	if mem && !(present && len(value) > 0 && bytes.Equal(stored, value)) {
 		return fmt.Sprintf("VIOLATION property=C18 sig=\"fuzz-false-membership-accepted\": membership of %q=%x in store %q verifies, model holds %x (present=%v); proof %x", key, value, store, stored, present, proof), mem, non
 	}
@@ -166,17 +169,17 @@ func FuzzC18Proof(f *testing.F) {
 		f.Fatalf("harness: cannot build the deterministic store: %v", err)
 	}
 	for _, s := range fs.seeds {
-		msg, mem, non := fuzzOracle(fs, s.proof, s.store, s.key, s.value)
+		msg, mem, non := fuzzOracle(fs, s.proof, fs.root, s.store, s.key, s.value)
 		if msg != "" {
 			f.Fatal(msg)
 		}
 		if (s.value != nil) != mem || (s.value == nil) != non {
 			f.Fatalf("harness: seed for %s/%q does not verify as expected (member=%v nonmember=%v)", s.store, s.key, mem, non)
 		}
-		f.Add(s.proof, s.store, s.key, s.value)
+		f.Add(s.proof, fs.root, s.store, s.key, s.value)
 	}
-	f.Fuzz(func(t *testing.T, proof []byte, store string, key, value []byte) {
-		if msg, _, _ := fuzzOracle(fs, proof, store, key, value); msg != "" {
+	f.Fuzz(func(t *testing.T, proof, root []byte, store string, key, value []byte) {
+		if msg, _, _ := fuzzOracle(fs, proof, root, store, key, value); msg != "" {
 			t.Fatal(msg)
 		}
 	})
@@ -191,6 +194,10 @@ type c18Flip struct {
 	Store string // "" = the seed's store
 	KeyX  []byte // xor-ed over the key (shorter of the two lengths)
 	ValX  []byte
+	RootX []byte // xor-ed over the root
+	// KeyOf >= 0: the statement is about another seed's key (a proof for one key presented for another)
+	KeyOf int
+	ValOf bool // ... and that seed's value
 }
 
 type c18Edit struct {
@@ -212,6 +219,14 @@ func genC18Flip(t *rapid.T) c18Flip {
 	}
 	if rapid.IntRange(0, 3).Draw(t, "valedit") == 0 {
 		c.ValX = genBytes(t, 1, 3, "valx")
+	}
+	if rapid.IntRange(0, 5).Draw(t, "rootedit") == 0 {
+		c.RootX = genBytes(t, 1, 2, "rootx")
+	}
+	c.KeyOf = -1
+	if rapid.IntRange(0, 3).Draw(t, "keyof") == 0 {
+		c.KeyOf = rapid.IntRange(0, 1<<10).Draw(t, "keyofidx")
+		c.ValOf = rapid.Bool().Draw(t, "valof")
 	}
 	return c
 }
@@ -242,18 +257,29 @@ func runC18Flip(t rapid.TB, c c18Flip, rec *vx.Case) {
 		store = c.Store
 	}
 	key, val := append([]byte(nil), s.key...), append([]byte(nil), s.value...)
+	if c.KeyOf >= 0 {
+		o := fs.seeds[c.KeyOf%len(fs.seeds)]
+		key = append([]byte(nil), o.key...)
+		if c.ValOf {
+			val = append([]byte(nil), o.value...)
+		}
+	}
+	root := append([]byte(nil), fs.root...)
+	for i := 0; i < len(c.RootX) && i < len(root); i++ {
+		root[i*7%len(root)] ^= c.RootX[i]
+	}
 	for i := 0; i < len(c.KeyX) && i < len(key); i++ {
 		key[len(key)-1-i] ^= c.KeyX[i]
 	}
 	for i := 0; i < len(c.ValX) && i < len(val); i++ {
 		val[i] ^= c.ValX[i]
 	}
-	msg, mem, non := fuzzOracle(fs, proof, store, key, val)
+	msg, mem, non := fuzzOracle(fs, proof, root, store, key, val)
 	if msg != "" {
 		t.Fatal(msg)
 	}
 	edited := !bytes.Equal(proof, s.proof)
-	pristine := !edited && store == s.store && bytes.Equal(key, s.key) && bytes.Equal(val, s.value)
+	pristine := !edited && store == s.store && bytes.Equal(key, s.key) && bytes.Equal(val, s.value) && bytes.Equal(root, fs.root)
 	if pristine && ((s.value != nil) != mem || (s.value == nil) != non) {
 		vx.Violatef(t, rec, c18, "true-statement-rejected", "genuine seed proof for %s/%q does not verify (member=%v nonmember=%v)", s.store, s.key, mem, non)
 	}
@@ -270,13 +296,19 @@ func runC18Flip(t rapid.TB, c c18Flip, rec *vx.Case) {
 	} else {
 		rec.Class("seed-membership")
 	}
-	rec.NonTrivialIf(edited)
+	if !bytes.Equal(root, fs.root) {
+		rec.Class("foreign-root")
+	}
+	if c.KeyOf >= 0 {
+		rec.Class("proof-of-other-key")
+	}
+	rec.NonTrivialIf(edited || !pristine)
 }
 
 func TestC18FuzzSeeds(t *testing.T) {
 	vx.Check(t, vx.Prop[c18Flip]{
 		ID:        c18,
-		Rule:      "seed corpus of FuzzC18Proof (genuine membership / non-membership proofs from a deterministic 4-store rootmulti) with 0..3 byte flips/drops/duplications of the proof's wire bytes and optional edits of store name, key and value; oracle: verifies => the model map agrees; non-trivial = proof bytes edited",
+		Rule:      "seed corpus of FuzzC18Proof (genuine membership / non-membership proofs from a deterministic 4-store rootmulti) with 0..3 byte flips/drops/duplications of the proof's wire bytes and optional edits of root, store name, key (xor, or the key of another seed) and value; oracle: verifies => root is the store root and the model map agrees; non-trivial = anything edited",
 		MinNTFrac: 0.5,
 		Gen:       genC18Flip,
 		Run:       runC18Flip,
